@@ -15,8 +15,9 @@ CLAIMED = {
             '(return, fall-through, propagating exception at any statement) the working-precision '
             'cell is proved equal to its entry value, by abstract interpretation over all paths with '
             'callee summaries; plus structural rules on the _wrap_specfun wrappers, the context '
-            'managers / two-phase rule protocols (incl. one manager object per activation, so nested or '
-            'recursive use cannot overwrite the saved precision) and the prec/dps setters.  Quantifies over all '
+            'managers / two-phase rule protocols (the saved precisions of a manager form a per-object stack, so nested or '
+            'recursive use cannot overwrite them), generators (no precision saved before a yield is written back after '
+            'it) and the prec/dps setters.  Quantifies over all '
             'inputs and crash points at statement granularity, which tests cannot.',
             'Assumes user callbacks leave the precision as found; restoring stores are atomic; calls '
             'are resolved by name through the context registries and class methods (unresolved calls '
@@ -48,7 +49,7 @@ CLAIMED = {
             'unmodified unpacked pair, or the product idiom), (5) the normaliser kernels do zero-test -> '
             'round -> strip -> power-of-two fix-up with every mantissa shift mirrored on exponent and '
             'bit count, (6) user tuples and pickles enter through the general normaliser / a one-to-one '
-            'field restore.  The arithmetic lemmas and the C back ends are not decided.',
+            'field restore, with inf/nan diverted before normalize (which answers zero for every zero mantissa).  The arithmetic lemmas and the C back ends are not decided.',
             'Trusts the parity/bit-count lemmas listed in sa/canon.py and the induction hypothesis.',
             'DESIGN.md section 2, Engine E'),
     'C02': ('B-rounding-flow',
@@ -61,7 +62,10 @@ CLAIMED = {
             'directed-rounding semantics as values; every operator method (including the generated '
             'ones), mpf() construction and fadd..fdiv thread the context\'s (prec, rounding); the '
             'sticky-bit idioms of division, square root and far-exponent addition are present and '
-            'internally consistent; the two tie-mask implementations agree.  Does NOT prove that the '
+            'internally consistent; the two tie-mask implementations agree; every converter of an inexact source '
+            '(string, rational, Decimal) in the mp context layer is handed the rounding mode (their default is '
+            'round-down: Fraction operands were truncated, repaired) and mpf() has a branch for each source type the '
+            'property names.  Does NOT prove that the '
             'rounded value is the nearest one (bit-level algebra).',
             'Trusts _normalize/_normalize1 (structure checked under C01) and the idiom lemmas.',
             'DESIGN.md section 2, Engine B (B-R3, B-R4)'),
@@ -81,7 +85,9 @@ CLAIMED = {
             'Clause: each component of complex +,-,* (and mixed real/int forms) is on every path special '
             'or ONE rounding, in the caller\'s mode at the requested precision, of exactly formed real '
             'products/sums; operators and fadd/fsub/fmul pass (prec, rounding) and dispatch to the '
-            'like-named kernel with operands in order; mpc equality is exact componentwise equality.  '
+            'like-named kernel with operands in order; mpc equality is exact componentwise equality; every argument of '
+            'an mpc_*/mpf_* kernel call whose shape can be inferred (raw mpf vs pair) has the shape the kernel takes '
+            '(H-R15, sa/shape.py).  '
             'Two known findings (component passed through by mpc_add_mpf / mpc_sub_mpf).  Error bounds of '
             'division/powers are not decided.',
             'Trusts the real kernels (C02).',
@@ -190,7 +196,9 @@ CLAIMED = {
             'used after one of its unpacked endpoints was recomputed and before it is rebuilt (C-R9, '
             'sa/stale_pack.py); mpi_overlap (excluded strip of gamma) is the intersection predicate on all 26 '
             'endpoint orderings; rectangle functions outside the audited endpoint-level set stay compositions '
-            '(C-R13, catches the two seeded cosh rewrites).  NOT decided: corner selection inside the '
+            '(C-R13, catches the two seeded cosh rewrites); every kernel argument has the shape (raw mpf / interval / '
+            'rectangle) its kernel takes (C-R15, sa/shape.py: found mpci_gamma handing the rectangle to mpi_gamma and '
+            'conjugate using mpf_neg on an interval, both repaired).  NOT decided: corner selection inside the '
             'audited endpoint-level functions, the excluded region of gamma, value-level tightenings.',
             'Trusts C14\'s real interval functions and the monotonicity table.',
             'DESIGN.md section 2, Engine C'),
@@ -201,7 +209,10 @@ CLAIMED = {
             'are functions of the weak ordering of four endpoints; the analyser interprets their AST '
             'on all 26 orderings and compares with the three-valued specification computed from the '
             'definition.  Exhaustive over the abstraction, i.e. decides the property for all '
-            'intervals, given exact order kernels.',
+            'intervals, given exact order kernels.  `in` is also evaluated for a complex operand (imaginary part '
+            'zero / non-zero on all orderings of the real part: never True off the real line), and every comparison '
+            'method answers NotImplemented - never a truthy exception class - for operands it cannot handle (both '
+            'found as defects and repaired).',
             'Trusts the small evaluator in sa/order_abs.py and that mpf_lt/le/gt/ge are exact (C05 '
             'clause); nan endpoints excluded.',
             'DESIGN.md section 2, Engine F'),
@@ -215,8 +226,10 @@ CLAIMED = {
             'aborted recomputation cannot leave a new tag on an old value).  Direction safety: the '
             'floor value of a positive constant is bumped by one unit exactly for the modes for which '
             'truncation goes the wrong way, then rounded once with the caller\'s (prec, rnd); the '
-            'interval constants evaluate (floor, ceiling) at one precision.  Decides these clauses, '
-            'not the digits.',
+            'interval constants evaluate (floor, ceiling) at one precision.  The evaluation sits in a retry loop that '
+            'is left only when the discarded bits are beyond a margin from every rounding boundary (K-R6), and no '
+            'floor-divided series quantity is multiplied by a coefficient growing with the loop counter under constant '
+            'guard bits (K-R5; apery_fixed repaired).  Decides these clauses, not the digits.',
             'That each *_fixed function returns a true floor is numerical; decided for the three closed-form '
             'series lengths (e, pi, acot[h]: formula evaluated against the convergence rate, K-R4), not for the '
             'loop-controlled series of the other constants.',
@@ -377,8 +390,12 @@ CLAIMED = {
             'digit counts are recomputed from the current precision on every use and passed to to_str; complex '
             'repr is composed of the part reprs in order; to_str writes +inf/-inf/nan and from_str\'s table reads '
             'exactly these back; to_str requests guard digits, rounds on the first dropped digit (5..9 up), '
-            'propagates the carry through 9s and bumps the exponent in the all-nines case.  Digit generation '
-            '(to_digits_exp) and nearest-decimal correctness as values are NOT decided.',
+            'propagates the carry through 9s and bumps the exponent in the all-nines case; digits that depend on an '
+            'inexact operation (a rounding kernel at finite precision, to_fixed cutting mantissa bits) reach to_str '
+            'only when certified by a floor/ceiling enclosure left under equality, a neighbour probe or an exactness '
+            'guard (W-R5; found nstr(mpf(\'0.45\'), 1) == \'0.4\' and a wrong last digit for huge exponents, repaired); '
+            'both parts of an mpc are printed with the same arguments.  That bin_to_radix/numeral give the right '
+            'digits of a fixed-point integer is NOT decided.',
             'Trusts the small formula evaluator (int/float arithmetic as in CPython).',
             'DESIGN.md section 10 (C08)'),
 }
